@@ -204,6 +204,11 @@ func (d *DNode) write(sb *strings.Builder) {
 		b, _ := json.Marshal(d.Tag)
 		sb.WriteString(`{"$go":`)
 		sb.Write(b)
+		if len(d.Kids) == 1 {
+			// a wrapper (pointer, Accessor, json.RawMessage) around a document of its own
+			sb.WriteString(`,"$inner":`)
+			d.Kids[0].write(sb)
+		}
 		sb.WriteByte('}')
 	}
 }
@@ -245,6 +250,13 @@ func substituteOpaque(v interface{}) interface{} {
 		if len(t) == 1 {
 			if tag, ok := t["$go"].(string); ok {
 				return OpaqueValue(tag)
+			}
+		}
+		if len(t) == 2 {
+			if tag, ok := t["$go"].(string); ok {
+				if inner, ok := t["$inner"]; ok {
+					return WrapValue(tag, substituteOpaque(inner))
+				}
 			}
 		}
 		for k, c := range t {
